@@ -1202,7 +1202,24 @@ func (r *aRun) oracleC17(v *aView) {
 		}
 	}
 	if r.finalDeadlineHit {
-		r.note("C17", "lost-over-reload", "not-delivered", "records were not delivered within the bound after the reloads although the upstream was healthy (queued chunks of the old pipelines not taken over?)")
+		if r.allDeliveredTo(r.srv) && r.srv2 != nil {
+			r.note("C17", "lost-over-reload", "not-delivered-output2", "records were not delivered to the second upstream within the bound after the reloads although it was healthy (queued chunks of the second output not taken over?)")
+		} else {
+			r.note("C17", "lost-over-reload", "not-delivered", "records were not delivered within the bound after the reloads although the upstream was healthy (queued chunks of the old pipelines not taken over?)")
+		}
+	}
+	if r.srv2 != nil {
+		acked2, onDisk2, _ := r.secondOutputState("C17")
+		for _, sr := range v.full {
+			if sr.rec.Raw != "" || sr.rec.Drop {
+				continue
+			}
+			st := stampOf(sr)
+			out.Obligations++
+			if !acked2[st] && !onDisk2[st] {
+				r.note("C17", "lost-over-reload", "lost-over-reload-output2", "record %s was read by the agent but is neither acknowledged by the second upstream nor in the second output's queue after %d successful and %d rejected reloads", st, okN, failN)
+			}
+		}
 	}
 	if okN > 0 {
 		r.checkNoPhantoms(v, "C17", ref2)
